@@ -34,6 +34,10 @@ def gen(ctx, size):
         ctx.add('sc.wide', b.hex(), expect=E(v), cls=c)
         if rng.random() < 0.3:
             ctx.add('sc.fromhash_pt', b.hex(), expect=E(v), cls=[c, 'hash'])
+    for _ in range(max(3, size // 20)):
+        c, v = vals.wide_value(rng)
+        b = v.to_bytes(64, 'little')
+        ctx.add('misc.sc_random', b.hex(), expect=E(v) + E(v), cls=[c, 'rng'])
     # hash to scalar (real SHA-512)
     for _ in range(max(4, size // 8)):
         m = vals.rb(rng, rng.choice([0, 1, 31, 32, 63, 64, 65, 127, 128, 129, 300]))
